@@ -6,6 +6,7 @@ import Driver.Walk
 import Driver.Pfn
 import Driver.Err
 import Driver.Flat
+import Driver.Derived
 
 def main (args : List String) : IO UInt32 := do
   let stdin ← IO.getStdin
@@ -18,4 +19,5 @@ def main (args : List String) : IO UInt32 := do
   | ["pfn"] => Driver.Pfn.run stdin; return 0
   | ["err"] => Driver.Err.run stdin; return 0
   | ["flat"] => Driver.Flat.run stdin; return 0
+  | ["derived"] => Driver.Derived.run stdin; return 0
   | _ => IO.eprintln "usage: kdfdrv <stream>"; return 2
